@@ -182,4 +182,16 @@ def run_case(case, res):
                 res.violation("not_reproduced", f"{where}: got control points {c.ctrlpoints}", **tags)
             elif not lib.all_exact(c.ctrlpoints):
                 res.violation("type", f"{where}: inexact control points {c.ctrlpoints}", **tags)
+        # float knots: fit_function / default fit_points use Chebyshev nodes; in-space functions are reproduced to rounding
+        if W is None:
+            res.transition(2)
+            D = rb.denote(U, gen, None, p)
+            cf = lib.Curve(lib.conv(U, "float"))
+            o = lib.outcome(cf.fit_function, lambda u, D=D: float(D.value(lib.to_frac(float(u)))))
+            tags = dict(api="fit_function", rational=False, data="generic", rep="float")
+            if o[0] != "ok":
+                res.violation("exception", f"U={U} float fit_function(member of the space) raised {o[1]}: {o[2]}", exc=o[1], **tags)
+            elif any(not lib.close(g, e, 1e-8) for g, e in zip(cf.ctrlpoints, gen)):
+                res.violation("not_reproduced", f"U={U} float fit_function: {cf.ctrlpoints} vs {gen}", **tags)
+            res.outcome("fit_function_float")
     res.observe(sorted(res.outcomes.items()))
